@@ -91,7 +91,17 @@ func c14MakeBlock(h uint64, variant int64, ntx int64) *c14Block {
 		d.Txs = append(d.Txs, types.Tx(fmt.Sprintf("tx-%d-%d-%d", h, variant, i)))
 	}
 	hdr.DataHash = d.DACommitment()
+	// the signature stored beside the block: its own bytes, the very signature the header carries (what the node's
+	// final save passes), or none yet (what the node's early save of a pending block passes)
 	sig := types.Signature(bytes.Repeat([]byte{byte(variant + 7), byte(h)}, 32))
+	switch variant % 3 {
+	case 1:
+		sig = append(types.Signature(nil), hdr.Signature...)
+	case 2:
+		if variant%2 == 0 {
+			sig = types.Signature{}
+		}
+	}
 	hb, _ := hdr.MarshalBinary()
 	db, _ := d.MarshalBinary()
 	return &c14Block{hdr: hdr, data: d, sig: sig, hb: hb, db: db}
